@@ -178,5 +178,9 @@ func (rp *replayer) replayWitness(ref harnessRef, v *Violation, path string) str
 		// a witness only has to reach its label natively: any completed run is accepted
 		return "ok"
 	}
+	if nr.result == "no-result" && !strings.Contains(nr.output, "panic") && !strings.Contains(nr.output, "fatal error") {
+		// the code under test ended the process itself (os.Exit in a command-line tool): accepted for witnesses
+		return "ok"
+	}
 	return nr.result
 }
